@@ -34,6 +34,7 @@ def run(ctx, R, tier):
     p = ctx.p
     ns = p.cls("Pyro5.nameserver.NameServer")
     R.rule("C15-R1", "every NameServer method with two or more storage accesses on one path performs all of them inside one `with self.lock` region", floor=8)
+    R.rule("C15-R3", "every mutating sqlite storage operation is one transaction, so lock-free readers (lookup, count) never see half of it (shared with C14-R2)", floor=5)
     R.rule("C15-R2", "one re-entrant lock created in __init__; storage is not accessed under another lock; no blocking call inside a lock region", floor=3)
 
     methods = {name: m for name, m in ns.methods.items() if name != "__init__"}
@@ -94,6 +95,16 @@ def run(ctx, R, tier):
         elif len(set(regions)) != 1:
             why = "the storage accesses of %s() are spread over %d separate lock regions: the lock is released in between" % (name, len(set(regions)))
         R.check(ok, "C15-R1", "NameServer.%s|compound-under-one-lock" % name, "all %d storage accesses lie in one `with self.lock` region" % len(acc), m.loc(), why)
+
+    # ---------------------------------------------------------------- R3 (shared with C14-R2)
+    from ..report import Rules
+    from . import c14
+    R14 = Rules("C14")
+    c14.run(ctx, R14, tier)
+    for o in R14.obs:
+        if o.rule == "C14-R2":
+            R.add("C15-R3", o.key.split("|", 1)[1], o.desc + " (lookup and count take no lock: a second commit inside one operation would be visible to them as a state no "
+                  "sequential order explains)", o.ok, o.loc, o.detail)
 
     # ---------------------------------------------------------------- R2
     init = ns.methods.get("__init__")
